@@ -6,7 +6,8 @@ package oauth2
 // code). Comment-only: no code; visible only with the build tag "verif".
 //
 //@ func (*OAuth2).End
-//@   property C01 C03 C14 C15 C18
+//@   property C01 C03 C14 C15 C18 C17
+//@   ensures[C17] no_secret_leak: secrets_clean
 //@   let provider = str_lower(filepath_base(r.URL.Path))
 //@   invariant loop#1 ctx_user_kept: ctxuser(r) == user
 //@   invariant loop#1 redirect_local: redirect == o.Config.Paths.OAuth2LoginOK || !offsite(redirect)
@@ -42,7 +43,8 @@ package oauth2
 //@   ensures[C18] save_error_outcome: each Store.SaveOAuth2(_) -> ?e => e != nil ==> (result == e && !emits Sess.Put(_, _) && !emits Redirect(_))
 //@
 //@ func (*OAuth2).Start
-//@   property C14 C01
+//@   property C14 C01 C17
+//@   ensures[C17] no_secret_leak: secrets_clean
 //@   invariant loop#1 outer: true
 //@   invariant loop#2 inner: true
 //@   ensures[C14] start_issues: each Sess.Put(SessionOAuth2State, ?s) =>
